@@ -4,6 +4,7 @@ import (
 	"container/list"
 	"crypto/sha256"
 	"encoding/binary"
+	"fmt"
 	"maps"
 	"slices"
 	"strings"
@@ -83,6 +84,10 @@ func (cache *Cache) Sign(message []byte) (sig hotstuff.QuorumSignature, err erro
 
 // Verify verifies the given quorum signature against the message.
 func (cache *Cache) Verify(signature hotstuff.QuorumSignature, message []byte) error {
+	if signature == nil {
+		// a message from the network may carry no (or an undecodable) signature; the cache key needs one.
+		return fmt.Errorf("cannot verify a nil signature")
+	}
 	hash := sha256.Sum256(message)
 	key := cacheKey(hash, signature)
 
@@ -100,6 +105,9 @@ func (cache *Cache) Verify(signature hotstuff.QuorumSignature, message []byte) e
 
 // BatchVerify verifies the given quorum signature against the batch of messages.
 func (cache *Cache) BatchVerify(signature hotstuff.QuorumSignature, batch map[hotstuff.ID][]byte) error {
+	if signature == nil {
+		return fmt.Errorf("cannot verify a nil signature")
+	}
 	// sort the list of ids from the batch map
 	ids := slices.Sorted(maps.Keys(batch))
 	var hash hotstuff.Hash
